@@ -575,6 +575,77 @@ def run_flavours(ctx):
         shutil.rmtree(tmp, ignore_errors=True)
 
 
+def run_default_axis(ctx):
+    """ufunc.reduce / ufunc.accumulate called WITHOUT an axis work along axis 0 (numpy's default for ufunc methods), while
+    the function spellings default to axis=None: `numpy.add.accumulate(p)` is a spelling of `cumsum(p, axis=0)`, `numpy.add
+    .reduce(p)` of `sum(p, axis=0)`, ... on operands with two or more axes (seeded change C08-13: accumulate lost the default)"""
+    rng = ctx.rng("default-axis")
+    pairs = [("numpy.add.accumulate", lambda p: numpy.add.accumulate(p), "cumsum", {}),
+             ("numpy.add.reduce", lambda p: numpy.add.reduce(p), "sum", {}),
+             ("numpy.multiply.reduce", lambda p: numpy.multiply.reduce(p), "prod", {"maxexp": 1}),
+             ("numpy.logical_and.reduce", lambda p: numpy.logical_and.reduce(p), "all", {}),
+             ("numpy.logical_or.reduce", lambda p: numpy.logical_or.reduce(p), "any", {})]
+    for _ in range(2 if ctx.quick else 12):
+        for label, thunk, fn, kw in pairs:
+            p = P(rng, shape=gen.choice(rng, [(2, 3), (3, 2), (2, 1, 3), (2, 2, 2)]), nterms=2, lim=2, **kw)
+            results = []
+            for lab, call in ((label + "(p)", lambda: thunk(p)), (f"numpy.{fn}(p, axis=0)", lambda: getattr(numpy, fn)(p, axis=0)),
+                              (f"numpoly.{fn}(p, axis=0)", lambda: getattr(numpoly, fn)(p, axis=0)),
+                              (f"p.{fn}(axis=0)", lambda: getattr(p, fn)(axis=0))):
+                try:
+                    with warnings.catch_warnings():
+                        warnings.simplefilter("ignore")
+                        r = call()
+                    results.append((lab, "ok", catalogue.canon(r), type(r).__name__))
+                except Exception as err:  # noqa: BLE001
+                    results.append((lab, "raises", type(err).__name__, None))
+            ctx.evaluations += len(results)
+            ctx.count("default-axis")
+            for other in results[1:]:
+                if results[0][1:] != other[1:]:
+                    ctx.fail({"kind": "default-axis", "function": f"numpy.{fn}", "spellings": [results[0][0], other[0]]},
+                             f"{results[0][0]} and {other[0]} disagree: {str(results[0][2])[:150]} vs {str(other[2])[:150]}",
+                             ["positive", f"function:numpy.{fn}", "default-axis"])
+                    break
+
+
+def run_reformat(ctx):
+    """`repr(p)` / `str(p)` are spellings of numpy.array_repr / array_str every time they are asked, not only the first time:
+    the same object is formatted repeatedly while display options change in between and after an explicit copyto into it
+    (seeded change C08-14: the text was memoised on the instance)"""
+    rng = ctx.rng("reformat")
+    settings = [{}, {"display_exponent": "^"}, {"display_graded": False}, {"display_reverse": True, "display_multiply": " "},
+                {"display_inverse": True}, {}]
+    for _ in range(3 if ctx.quick else 20):
+        p = P(rng, shape=gen.choice(rng, [(), (2,), (2, 2)]), nterms=3)
+        for step in range(len(settings) + 1):
+            if step == len(settings):
+                q = P(rng, shape=p.shape, nterms=2)
+                try:
+                    target = numpoly.ndpoly.from_attributes(*(lambda u: (u.exponents, [numpy.zeros_like(c) for c in u.coefficients], u.names))(p + q),
+                                                            retain_coefficients=True, retain_names=True)
+                    numpoly.copyto(target, p)
+                    repr(target), str(target)
+                    numpoly.copyto(target, q)
+                    p, opts = target, {}
+                except Exception:  # noqa: BLE001
+                    break
+            else:
+                opts = settings[step]
+            with numpoly.global_options(**opts):
+                texts = [("repr()", repr(p)), ("numpy.array_repr", numpy.array_repr(p)), ("numpoly.array_repr", numpoly.array_repr(p)),
+                         ("str()", str(p)), ("numpy.array_str", numpy.array_str(p)), ("numpoly.array_str", numpoly.array_str(p))]
+            ctx.evaluations += len(texts)
+            ctx.count("reformat")
+            for group in (texts[:3], texts[3:]):
+                for lab, txt in group[1:]:
+                    if txt != group[0][1]:
+                        ctx.fail({"kind": "reformat", "function": "numpy.array_repr" if group is texts[:3] or lab.endswith("repr") else "numpy.array_str",
+                                  "spellings": [group[0][0], lab], "options": opts, "step": step},
+                                 f"{group[0][0]} and {lab} disagree on an object formatted before (options {opts}): {group[0][1]!r} vs {txt!r}",
+                                 ["positive", "reformat"])
+                        return
+
 def run(ctx):
     ctx.rule = RULE
     from ..extract import tables
@@ -583,6 +654,8 @@ def run(ctx):
     registry_f = dict(t["functionRegistry"])
     run_positive(ctx, set(registry_u) | set(registry_f))
     run_out(ctx)
+    run_default_axis(ctx)
+    run_reformat(ctx)
     run_flavours(ctx)
     run_negative_ufuncs(ctx, registry_u)
     run_negative_functions(ctx, registry_f)
@@ -612,6 +685,10 @@ def replay(ctx, case):
     if case["kind"] == "flavour":
         run_flavours(ctx)
         hits = [f for f in ctx.failures[n:] if f["case"].get("function") == case["function"] and f["case"].get("flavour") == case["flavour"]]
+        return hits[0]["what"] if hits else None
+    if case["kind"] in ("default-axis", "reformat"):
+        (run_default_axis if case["kind"] == "default-axis" else run_reformat)(ctx)
+        hits = ctx.failures[n:]
         return hits[0]["what"] if hits else None
     if case["kind"] == "out":
         run_out(ctx)
